@@ -17,7 +17,8 @@ ties       : (A) codec   — the real _MIR_get_thunk/_MIR_redirect_thunk/_MIR_ge
              (D) programs — multi-module programs (checks/c03_gen.py: recursion, mutual recursion across
                  modules, indirect calls through `ref` data, function addresses passed to C callbacks that
                  re-enter MIR, 17-argument functions, permuted first-call orders) under interp, the
-                 interpreter's C interface, eager / lazy / lazy-bb generation at every level, with an
+                 interpreter's C interface, eager / lazy / lazy-bb generation at every level and under mixed links
+                 (set_interface callback choosing a different interface per module), with an
                  allocator that clobbers caller-saved registers; results, buffers, call logs must coincide
                  between interfaces and between call orders; item->addr sampled throughout.
              Failures that reproduce with eager generation alone against the interpreter are C01's
@@ -29,6 +30,8 @@ import mirgen, progtie, c03_gen
 
 ENG5 = ["interp", "interpc", "gen1", "lazy1", "bb1"]
 LEVELS = [["interp", "gen0", "lazy0", "bb0"], ["interp", "gen2", "lazy2", "bb2"], ["interp", "gen3", "lazy3", "bb3"]]
+MIXES = [["interp", "mixil1", "mixli1", "mixgb1", "mixbg1"], ["interp", "mixib2", "mixbi0", "mixlg3", "mixbl2"],
+         ["interp", "mixgi0", "mixig3", "mixlb1", "mixgl2"]]
 GEN_ONLY = ["interp", "gen0", "gen1", "gen2", "gen3"]
 M64 = (1 << 64) - 1
 
@@ -83,7 +86,7 @@ def stage_codec():
     rng = ck.rng
     lines = []
     bases = [0x300000000, 0x6f0000000000, 0] + ([0x7ffe00000000, 0x10000000] if not quick else [])
-    nrand = 40 if quick else 600
+    nrand = 150 if quick else 3000
     for b in bases:
         lines.append(f"ctx {b:x}")
         for j, d in enumerate(BOUND):
@@ -345,7 +348,7 @@ def run_hist_case(text, plan, expect, tag):
 
 
 def stage_hist():
-    n = 60 if quick else 1500
+    n = 250 if quick else 4000
     cases = [gen_hist_case(ck.rng, c) for c in range(n)]
     nevents = 0
     stats = {}
@@ -549,7 +552,7 @@ def shrink_prog_failure(f):
 
 def stage_programs():
     rng = ck.rng
-    nprog = 96 if quick else 1400
+    nprog = 300 if quick else 3000
     per = 6
     progs = []
     stats = {}
@@ -570,6 +573,8 @@ def stage_programs():
         lv = LEVELS[bi % 3] if quick else None
         for L in ([lv] if lv else LEVELS):
             jobs.append((L, batch, f"b{bi}l{L[1]}", None))
+        for L in ([MIXES[bi % 3]] if quick else MIXES):   # one link, a per-module choice of interface
+            jobs.append((L, batch, f"b{bi}m{L[1]}", None))
         if bi % 4 == 0:   # interfaces that must not depend on xmm8-15 either
             jobs.append((["interp", "interpc", "gen2", "lazy2"], batch, f"b{bi}t", {"C03_TRASH": "all"}))
     fails, nev = [], 0
@@ -605,7 +610,7 @@ def stage_programs():
     d = ck.cov.setdefault("distribution", {})
     d["programs"] = {"programs": nprog, "harness_runs": len(jobs), "generated_constructs": stats, "failures_c01_class": classes["c01"],
                      "failures_c03": classes["c03"], "c01_class_samples": c01_samples,
-                     "engine_sets": [ENG5] + LEVELS + [["interp", "interpc", "gen2", "lazy2", "(allocator clobbers xmm8-15 too)"]]}
+                     "engine_sets": [ENG5] + LEVELS + MIXES + [["interp", "interpc", "gen2", "lazy2", "(allocator clobbers xmm8-15 too)"]]}
     ck.sample({"program_plan_head": progs[0][1][1].split("\n")[:8]})
     return nprog, nev
 
